@@ -425,13 +425,14 @@ def check_compbasis_many(desc):
     z = [b.basis[0][0] for b in bases]
     terms = _terms(desc, z, z)
     f = O1.bilinear_integrand(terms, Mn, False)
-    A = BilinearForm(f).assemble(cb).toarray()
+    par = {'s': 0.5}
+    A = BilinearForm(f).assemble(cb, **dict(par)).toarray()
     blocks = [[None] * Mn for _ in range(Mn)]
     for a in range(Mn):
         for b in range(Mn):
             def fab(u, v, w, a=a, b=b):
                 return f(*_inject(z, b, u), *_inject(z, a, v), w)
-            blocks[a][b] = BilinearForm(fab).assemble(bases[b], bases[a])
+            blocks[a][b] = BilinearForm(fab).assemble(bases[b], bases[a], **dict(par))
     K = bmat(blocks, 'csr')
     out.append(('compositebasis-blocks', _rel(A, K.toarray()), None))
     out.append(('bmat-blocks', 0.0 if list(K.blocks) == [int(x) for x in offs[1:-1]] else float('inf'), None))
@@ -492,6 +493,13 @@ def fixed_cases():
             k += 1
             out.append({'check': check, 'mesh': mesh, 'mseed': 1000 + k, 'seed': 2000 + k, 'intorder': 3, 'tseed': 3000 + k,
                         'nterms': 2, 'elem': elem, 'basis': 'cell'})
+    # vector elements whose scalar element has two or more interior DOFs per cell (split_indices must list them cell-major)
+    for mesh, elem in (('tri-struct', 'V:ElementTriP4'), ('tri-delaunay', 'V:DG:ElementTriP2'), ('quad-jiggled', 'V:ElementQuadP(3)'),
+                       ('tet-struct', 'V:DG:ElementTetP1'), ('hex-jiggled', 'V2:DG:ElementHex1'), ('line-random', 'V2:ElementLinePp(3)')):
+        for check in ('split', 'block'):
+            k += 1
+            out.append({'check': check, 'mesh': mesh, 'mseed': 1000 + k, 'seed': 2000 + k, 'intorder': 3, 'tseed': 3000 + k,
+                        'nterms': 1, 'elem': elem, 'basis': 'cell'})
     for mesh, elem, basis in (('tri-struct', 'V:ElementTriP1', 'ifacet1'), ('quad-jiggled', 'C:ElementQuad2+ElementQuad1+ElementQuad0', 'cells'),
                               ('tet-struct', 'C:ElementTetP2+ElementTetP1', 'facets'), ('tri-delaunay', 'C:ElementTriP2+ElementTriP1', 'ifacet1')):
         k += 1
